@@ -428,6 +428,8 @@ class EventDispatcher(object):
             # Fail the execution (if one is running) before dropping its event.
             self.state_engine.abort_execution(item, description)
             message.acknowledge(multiple=False)
+            # The message has been dealt with: don't keep it for ever.
+            self.unacknowledged_messages.pop(message_id, None)
 
     def acknowledge(self, id):
         """
